@@ -276,6 +276,15 @@ def sampler_scenarios(seed, per_group, faults="none"):
                         "script": [{"op": "sleep", "us": 20000 + 15000 * j}, {"op": "pause"}, {"op": "sleep", "us": 20000},
                                    {"op": "progress"}, {"op": "sleep", "us": 350000}, {"op": "progress"}, {"op": "inspect"},
                                    {"op": "resume"}] + [{"op": "wait", "ms": 4000}] * 6 + [{"op": "abort"}]})
+        # snapshots while chains are recording: every record takes 2 ms (the chain holds its trace lock meanwhile) and the
+        # script inspects every millisecond; every snapshot must contain every chain that has recorded something
+        for j in range(2):
+            st = {"num_tune": 6, "num_draws": 6, "num_chains": 2, "seed": rnd.randrange(1 << 30), "maxdepth": 2}
+            out.append({"preset": "diag_nuts", "dim": 2, "density": DENS[0], "settings": st, "num_cores": 2,
+                        "sched_seed": rnd.randrange(1 << 30), "sched_amp_us": 50, "group": [2, 2, 12], "keep_script": True,
+                        "rec_delay_us": 2000,
+                        "script": [x for _ in range(24) for x in ({"op": "inspect"}, {"op": "sleep", "us": 700 + 500 * j})]
+                                  + [{"op": "wait", "ms": 4000}] * 6 + [{"op": "abort"}]})
     if faults == "failures":
         # an unrecoverable error at every evaluation of a short warm-up that crosses the first transformation
         # change (so that it also lands in the re-run of the step-size search): the run must report it
@@ -335,6 +344,8 @@ def schema_scenarios(seed, n):
               "chain": rnd.randrange(5), "init": [rnd.uniform(-1, 1) for _ in range(dim)]}
         if rnd.random() < 0.3:
             sc["faults"] = [[rnd.randrange(8, 200), rnd.choice(NONFATAL)] for _ in range(3)]
+        # every other model declares only its own dimension (as a user's model does), not the sampler's
+        sc["own_dims"] = (i % 2 == 1)
         out.append(sc)
     return out
 
